@@ -89,6 +89,15 @@ func (c *Channel) LeavePresence(ctx context.Context, status string, p stanza.Pre
 	ctx, cancel := context.WithCancel(ctx)
 	defer cancel()
 
+	// The presence handler never blocks on the depart channel: it has room for
+	// one signal, so that a departure which is processed before the select
+	// below is reached is not lost.
+	// Forget a departure that was signaled before this request.
+	select {
+	case <-c.depart:
+	default:
+	}
+
 	errChan := make(chan error)
 	go func(errChan chan<- error) {
 		resp, err := c.session.SendPresenceElement(ctx, inner, p)
